@@ -172,6 +172,12 @@ func (k Keeper) splitFeesCollected(
 	daoAllocation := sdk.NewDec(k.DAOAllocation(ctx))
 	proposerAllocation := sdk.NewDec(k.ProposerAllocation(ctx))
 
+	// with both allocations at zero there is nothing to apportion: everything stays with the
+	// proposer side instead of dividing by zero (which would halt every node in BeginBlock)
+	if daoAllocation.Add(proposerAllocation).IsZero() {
+		return sdk.ZeroInt(), feesCollected
+	}
+
 	// get the new percentages of `dao / (dao + proposer)`
 	daoAllocation = daoAllocation.Quo(daoAllocation.Add(proposerAllocation))
 
